@@ -392,6 +392,42 @@ class Interp:
                     env = dict(env)
                     env[nm] = mk_alt(new)
                     return env
+        # mutation of a list held in a local dictionary: d[k].append(v) / d.setdefault(k, []).append(v)
+        if isinstance(e, ast.Call) and isinstance(e.func, ast.Attribute) and \
+                e.func.attr in ("append", "add", "extend", "update", "insert"):
+            recv = e.func.value
+            dname = None
+            keyexpr = None
+            dflt: AV = BOT
+            if isinstance(recv, ast.Subscript) and isinstance(recv.value, ast.Name) and recv.value.id in env:
+                dname, keyexpr = recv.value.id, recv.slice
+            elif isinstance(recv, ast.Call) and isinstance(recv.func, ast.Attribute) and \
+                    recv.func.attr == "setdefault" and isinstance(recv.func.value, ast.Name) and \
+                    recv.func.value.id in env and recv.args:
+                dname, keyexpr = recv.func.value.id, recv.args[0]
+                if len(recv.args) > 1:
+                    dflt = self.ev(recv.args[1], env, f)
+            if dname is not None:
+                cur = env[dname]
+                ds = [a for a in alts_of(cur) if isinstance(a, Dct)]
+                if ds and len(alts_of(cur)) == 1 and e.args:
+                    d = ds[0]
+                    arg = self.ev(e.args[-1], env, f)
+                    k = self.ev(keyexpr, env, f) if not isinstance(keyexpr, ast.Slice) else TOP
+                    inner = join(d.val, dflt)
+                    new_inner: List[AV] = []
+                    for a in alts_of(inner):
+                        if isinstance(a, Lst):
+                            el = arg if e.func.attr in ("append", "add", "insert") else \
+                                join_all(self.elem(x) for x in alts_of(arg))
+                            new_inner.append(Lst(None, join(a.element(), el), False))
+                        else:
+                            new_inner.append(a)
+                    if not alts_of(inner):
+                        new_inner.append(Lst(None, arg, False))
+                    env = dict(env)
+                    env[dname] = Dct(join(d.key, k), join(d.val, mk_alt(new_inner)))
+                    return env
         self.ev(e, env, f)
         return env
 
